@@ -132,14 +132,15 @@ def check_faults(nodes, src, case, res):
 
 
 def plan(ctx):
-    L = ctx.pick(3, 4)
+    L = 3
     return [
         ('shard_enum', [('tok', 'A_TOK', L, i, 48) for i in range(48)] +
                        [('core', 'A_CORE', ctx.pick(3, 5), i, 32) for i in range(32)] +
-                       [('cat', 'A_CAT', ctx.pick(2, 4), i, 32) for i in range(32)]),
+                       [('cat', 'A_CAT', ctx.pick(2, 3), i, 32) for i in range(32)] +
+                       ([('tokcore', 'A_TOK_CORE', 4, i, 64) for i in range(64)] if ctx.thorough else [])),
         ('shard_random', [('rnd', ctx.pick(1200, 30000), i) for i in range(16)]),
-        ('shard_mutations', [('mut', ctx.pick(3, 120), i) for i in range(16)]),
-        ('shard_faults', [('faults', ctx.pick(45, 3000), i) for i in range(16)]),
+        ('shard_mutations', [('mut', ctx.pick(3, 30), i) for i in range(16)]),
+        ('shard_faults', [('faults', ctx.pick(45, 1200), i) for i in range(16)]),
         ('shard_docs', [('docs', ctx.pick(120, 5000), i) for i in range(16)]),
     ]
 
